@@ -9,6 +9,12 @@ import random
 from refmodels import net_ref
 from vsim import world as W
 from vsim.rig import Rig, repo
+from checks import netcommon as N
+
+
+class _Shim:
+    def __init__(self, obj, radio):
+        self.obj, self.radio = obj, radio
 
 PROP = "C04"
 RULE = ("781 real RF24Network nodes (every valid address of levels 0..4) on one simulated medium, "
@@ -23,10 +29,10 @@ RULE = ("781 real RF24Network nodes (every valid address of levels 0..4) on one 
         "must be accepted by exactly the nodes of that level on pipe 0. Non-trivial: a "
         "transmission was observed; distinct = (byte set, multicast flag, node, destination "
         "class, role).")
-RULE += (" Later rounds added: per-node histories (interleaved unicasts/multicasts, hops that fail outright) judged like first transmissions incl. the identity of the frame on air; nodes re-addressed at run time compared with fresh ones; partial/extreme address byte customisations; one node customising its bytes in place must not affect the others. Relaying nodes of every level: the re-broadcast is accepted by exactly the next level (by nobody from level 4).")
+RULE += (" Later rounds added: per-node histories (interleaved unicasts/multicasts, hops that fail outright) judged like first transmissions incl. the identity of the frame on air; nodes re-addressed at run time compared with fresh ones; partial/extreme address byte customisations; one node customising its bytes in place must not affect the others. Relaying nodes of every level: the re-broadcast is accepted by exactly the next level (by nobody from level 4). Acknowledged-type sends to far nodes inside the histories with the listening addresses re-checked; multicasting switched off and on inside the re-addressing histories.")
 REQUIRED = {"listening_entries": 4000, "next_hop_origin": 1000, "next_hop_router": 1000,
             "multicast_level": 50, "path_composition": 500, "history_independent": 300,
-            "readdressed_like_fresh": 30, "inplace_isolated": 100, "relay_next_level": 50}
+            "readdressed_like_fresh": 30, "inplace_isolated": 100, "relay_next_level": 50, "listening_after_history": 50}
 BUDGET = {"quick": 600, "thorough": 1500}
 EXHAUSTIVE = {"quick": "all 781x6 listening entries (default bytes, multicast on and off)",
               "thorough": "all 781x780 (source, destination) pairs in both roles with default bytes; all 781x6 listening entries for every byte set"}
@@ -416,6 +422,27 @@ def history_checks(ctx, net, mine, rng, ci, mc):
         tag = []
         for k in range(14 if ctx.tier == "quick" else 40):
             r = rng.random()
+            if k % 5 == 4:
+                # a message of an acknowledged type to a node two or more hops away (the origin waits
+                # for a NETWORK_ACK in RX mode), then the node's listening addresses are looked at:
+                # they are those of a fresh node of its address, whatever it sent before
+                far = [d for d in pool if d != n and len(net_ref.tree_path(n, d)) >= 2]
+                if far:
+                    net.clear_rx()
+                    node_ = net.node
+                    node_.deadline = node_.t + 3000 * W.MS
+                    try:
+                        net.objs[n].send(net.m["structs"].RF24NetworkHeader(rng.choice(far), 70 + k), b"far")
+                    finally:
+                        node_.deadline = None
+                    tag.append("ack-typed far send")
+                why = N.listening_invariant(_Shim(net.objs[n], net.radios[n]))
+                ctx.clause("listening_after_history")
+                if why:
+                    ctx.violation("listening-after-history", "node %o after %s: %s" % (n, ",".join(tag[-4:]), why),
+                                  {"cfg": ci, "n": n, "history": tag[-6:]})
+                    return
+                continue
             if mc and r < 0.35:
                 L = rng.choice([None, 0, 1, 1, 2, 3, 4])
                 tag.append("mc%r" % L)
@@ -501,8 +528,18 @@ def readdress_checks(ctx, net, mine, rng, ci, mc):
                 x = ALL[rng.randrange(len(ALL))]
                 o.node_address = x
                 hist.append("node_address=%o" % x)
+        toggled = mc and rng.random() < 0.4
+        if toggled:
+            # multicasting switched off (applied by the re-addressing that follows) and on again,
+            # re-opened by assigning multicast_level - the node's own level, i.e. its present value
+            o.allow_multicast = False
+            hist.append("allow_multicast=False")
         o.node_address = n
         hist.append("node_address=%o" % n)
+        if toggled:
+            o.allow_multicast = True
+            o.multicast_level = lvl
+            hist += ["allow_multicast=True", "multicast_level=%d" % lvl]
         final_mlevel = None
         if mc and rng.random() < 0.3:
             final_mlevel = rng.randrange(0, 5)
